@@ -40,11 +40,11 @@ CHECKS = {
  "C16": ("exploration", "property-based testing with rendezvous (barrier) helpers",
          "Groups of 2..24 (quick) / 2..64 (thorough) members at varying plan positions, commands and tokio worker counts; all members wait for each other's start; completion is required. Group sizes include 31-34 and 63-66, and 30% of the scenarios have a log tail listener attached.",
          "liveness approximated by a 30 s barrier time-out confirmed with 60 s", "4/C16"),
- "C17": ("fault_enumeration", "tamper enumeration (one edit at every offset of a small triple) + property-based sampling of tampers on large configs",
-         "After the real `config generate`, every API must work on the untouched triple and must fail without acting after any single XOR/truncate/append tamper of source, generated file or lockfile, at offsets incl. the 8 KiB buffer boundaries. Appends include NUL bytes and bytes repeating the content one buffer length earlier.",
-         "two of nine APIs are exercised per tamper (rotating); lockfile edits that keep the checksum value are not judged", "4/C17"),
- "C18": ("exploration", "metamorphic property testing (re-serialisation of one JSON value)",
-         "A valid configuration value is written in 4-8 serialisations (whitespace, key order, escapes, padding to sizes around and far beyond 8 KiB) by the harness's own writer; config show, target show -g and analyze --target-groups must give JSON-equal output and equal exit status. A non-ASCII character is aligned to end before, straddle, or start at multiples of 1-64 KiB.",
+ "C17": ("fault_enumeration", "tamper enumeration (in-process: every single-byte XOR under all 255 masks, truncation, insertion and removal at every offset of a small triple, every offset of a large one under three masks; through the CLI: one edit at every offset of a small triple) + property-based sampling of tampers on large configs",
+         "After the real `config generate`, every API must work on the untouched triple and must fail without acting after any single XOR/truncate/append tamper of source, generated file or lockfile, at offsets incl. the 8 KiB buffer boundaries. Appends include NUL bytes and bytes repeating the content one buffer length earlier. A quarter of the sampled cases invoke everything from the directory above the repository. The in-process sweep drives the loading step (Config::new + check, guarded hook config_load) over about 4*10^5 tampered triples per quick run.",
+         "two of thirteen APIs are exercised per tamper (rotating); lockfile edits that keep the checksum value are not judged; which directory a relative source.path refers to is left to `generate` (a case whose generate fails from the outer directory is inconclusive)", "4/C17"),
+ "C18": ("exploration", "metamorphic property testing (re-serialisation of one JSON value): proptest through the CLI and in-process through the loading hook, libFuzzer target fz_c18 in the thorough tier",
+         "A valid configuration value is written in 4-8 serialisations (whitespace, key order, escapes incl. \\/ and upper-case \\uXXXX, padding to sizes around and far beyond 8 KiB) by the harness's own writer; config show, target show -g and analyze --target-groups must give JSON-equal output and equal exit status, also with a checkpoint and the configuration file tracked by git. A non-ASCII character is aligned to end before, straddle, or start at multiples of 1-64 KiB. In-process: 4000 (thorough 150000) values x 8-18 serialisations up to 4 MiB through Config::new + check + fill (guarded hook config_load).",
          "validity of the value is established through the in-process hook; the writer is self-checked by parsing its output back", "4/C18"),
  "C19": ("exploration", "stateful model-based property testing (Option<checkpoint> model)",
          "Generated sequences of commits, edits, updates (no flags / --id sha / --id token / -p), show, delete, out delete --all, analyze and run; show must equal the last update's result, updates without --id must record git's HEAD, and without a checkpoint analyze/run must cover every target. Pending maps far larger than 64 KiB are generated.",
